@@ -910,10 +910,15 @@ func buildScalarType(src protoreflect.FieldDescriptor, ext protoFieldExtensions)
 		}, nil
 
 	case protoreflect.BytesKind:
+		bytesRules := &schema_j5pb.BytesField_Rules{}
+		if constraint := ext.validate.GetBytes(); constraint != nil {
+			bytesRules.MinLength = constraint.MinLen
+			bytesRules.MaxLength = constraint.MaxLen
+		}
 
 		return &schema_j5pb.Field_Bytes{
 			Bytes: &schema_j5pb.BytesField{
-				Rules: &schema_j5pb.BytesField_Rules{},
+				Rules: bytesRules,
 			},
 		}, nil
 
